@@ -29,7 +29,7 @@ Definition eng_rejected (o : op) : eng_obs :=
         | OpKey _ _ | OpSetInput _ | OpSelect _ | OpSelectPage _ | OpHighlight _ | OpHighlightPage _
         | OpDelete _ | OpDeletePage _ | OpChangePage _ | OpCommit | OpGetContext | OpGetStatus => RBool false
         | OpGetCommit => RCommit None
-        | OpSetCaret _ | OpClear | OpGetInput | OpGetCaret | OpSetOption _ _ => RNone
+        | OpSetCaret _ | OpClear | OpGetInput | OpGetCaret | OpSetOption _ _ | OpTick _ => RNone
         end).
 
 Section EngSvc.
